@@ -594,6 +594,60 @@ def _res_and_then(I, st, fid, bi, a, c, t):
     return _opt_cases(I, st, fid, bi, a[0], 'Ok', lambda s, p: _callf(I, fid, bi, a[1], [])(s, p), lambda s: err(('app', 'err_of', a[0])), 'r_and_then')
 
 
+@model('core::option::Option::<T>::or_else')
+def _opt_or_else(I, st, fid, bi, a, c, t):
+    return _opt_cases(I, st, fid, bi, a[0], 'Some', lambda s, p: some(p), lambda s: _callf(I, fid, bi, a[1], [])(s), 'or_else')
+
+
+@model('core::option::Option::<T>::or')
+def _opt_or(I, st, fid, bi, a, c, t):
+    return _opt_cases(I, st, fid, bi, a[0], 'Some', lambda s, p: some(p), lambda s: a[1], 'or')
+
+
+@model('core::option::Option::<T>::map_or')
+def _opt_map_or(I, st, fid, bi, a, c, t):
+    return _opt_cases(I, st, fid, bi, a[0], 'Some', lambda s, p: _callf(I, fid, bi, a[2], [])(s, p), lambda s: a[1], 'map_or')
+
+
+@model('core::option::Option::<T>::map_or_else')
+def _opt_map_or_else(I, st, fid, bi, a, c, t):
+    return _opt_cases(I, st, fid, bi, a[0], 'Some', lambda s, p: _callf(I, fid, bi, a[2], [])(s, p), lambda s: _callf(I, fid, bi, a[1], [])(s), 'map_or_else')
+
+
+@model('core::result::Result::<T, E>::or_else')
+def _res_or_else(I, st, fid, bi, a, c, t):
+    return _opt_cases(I, st, fid, bi, a[0], 'Ok', lambda s, p: ok(p), lambda s: _callf(I, fid, bi, a[1], [])(s, ('app', 'err_of', a[0])), 'r_or_else')
+
+
+@model('core::result::Result::<T, E>::map_or')
+def _res_map_or(I, st, fid, bi, a, c, t):
+    return _opt_cases(I, st, fid, bi, a[0], 'Ok', lambda s, p: _callf(I, fid, bi, a[2], [])(s, p), lambda s: a[1], 'r_map_or')
+
+
+@model('core::result::Result::<T, E>::map_or_else')
+def _res_map_or_else(I, st, fid, bi, a, c, t):
+    return _opt_cases(I, st, fid, bi, a[0], 'Ok', lambda s, p: _callf(I, fid, bi, a[2], [])(s, p), lambda s: _callf(I, fid, bi, a[1], [])(s, ('app', 'err_of', a[0])), 'r_map_or_else')
+
+
+@model('core::result::Result::<T, E>::unwrap_or')
+def _res_unwrap_or(I, st, fid, bi, a, c, t):
+    return _opt_cases(I, st, fid, bi, a[0], 'Ok', lambda s, p: p, lambda s: a[1], 'r_unwrap_or')
+
+
+@model('core::result::Result::<T, E>::err')
+def _res_err(I, st, fid, bi, a, c, t):
+    return _opt_cases(I, st, fid, bi, a[0], 'Ok', lambda s, p: NONE, lambda s: some(('app', 'err_of', a[0])), 'r_err')
+
+
+@model('core::result::Result::<T, E>::is_err')
+def _res_is_err(I, st, fid, bi, a, c, t):
+    v = deref(I, st, a[0])
+    sv = I.static_variant(v)
+    if sv is not None:
+        return TRUE if sv == 'Err' else FALSE
+    return neg(('app', 'is_ok', v))
+
+
 @model('core::result::Result::<T, E>::is_ok')
 def _res_is_ok(I, st, fid, bi, a, c, t):
     v = deref(I, st, a[0])
@@ -651,11 +705,14 @@ def _find_map(I, st, fid, bi, a, c, t):
     return None
 
 
+RANGE_NEXT = 'core::iter::range::<impl core::iter::traits::iterator::Iterator for core::ops::range::Range<A>>::next'
+
+
 def _range_item(I, st, rng):
     """a generic item of `start..end` (one generic iteration of an internal-iteration method): a fresh value with
     start <= i < end, shaped like the payload of Range::next so that rules read it as the loop index"""
     n = next(I.counter)
-    nx = ('call', 'core::iter::range::<impl core::iter::traits::iterator::Iterator for core::ops::range::Range<A>>::next', (('opaque', n, 'range-iter'),), n)
+    nx = ('call', RANGE_NEXT, (('opaque', n, 'range-iter'),), n)
     i = ('app', 'vproj', nx, 'Some', '0')
     st.facts |= {('le', field_of(rng, 'start'), i), ('lt', i, field_of(rng, 'end')), ('is', nx, 'Some')}
     return i
@@ -673,6 +730,24 @@ def _try_for_each(I, st, fid, bi, a, c, t):
         if rx == ('never',):
             return rx
         return _opt_cases(I, st, fid, bi, rx, 'Ok', lambda s, p: ok(UNIT), lambda s: err(('app', 'err_of', rx)), 'try_for_each')
+    if len(a) > 1 and a[1][0] == 'agg' and a[1][1].startswith('closure:') and not (a[0][0] == 'agg' and a[0][1] == 'iter:FromFn'):
+        # any other iterator with a closure written in this crate: one generic iteration on an item of that iterator; the
+        # whole call is Ok(()) (possibly after zero iterations) or the Err some iteration produced
+        f = a[1]
+        src = a[0]
+        _havoc_captures(I, st, f)
+        n = next(I.counter)
+        nx = ('call', 'core::iter::traits::iterator::Iterator::next', (src,), n)
+        item = ('app', 'vproj', nx, 'Some', '0')
+        s2 = st.copy()
+        s2.facts.add(('is', nx, 'Some'))
+        I.event('call', s2, fid, bi, t.get('span') if t else None, callee='core::iter::traits::iterator::Iterator::next', args=[src], extra={'trait_path': 'core::iter::traits::iterator::Iterator::next', 'synthetic': True})
+        I.res.events[-1].ret = nx
+        rx = I.apply_callable(s2, fid, bi, f, agg('tuple', '', (('0', item),)))
+        I.havoc(st, 'try_for_each')
+        if rx == ('never',):
+            return ok(UNIT)
+        return _opt_cases(I, st, fid, bi, rx, 'Ok', lambda s, p: ok(UNIT), lambda s: err(('app', 'err_of', rx)), 'try_for_each_g')
     return None
 
 
